@@ -36,7 +36,7 @@ PROPS = {
         level_note="Small-scope: host patterns are exact names or a leading '*' wildcard; paths literal (plus trailing-* for the glob matcher). Patterns using '?', '{}' or carrying a default port are outside the alphabet.",
         units=[
         unit("c03", "route", ROUTE_COMMON + ["route/c03_test.go"], "^TestVerifC03"),
-    ], layers={"quick": ["c03-select", "c03-lookuphost"], "thorough": ["c03-select", "c03-lookuphost"]}),
+    ], layers={"quick": ["c03-select", "c03-lookuphost", "c03-special"], "thorough": ["c03-select", "c03-lookuphost", "c03-special"]}),
     "C04": dict(level="exploration", engine="benum",
         technique="bounded-exhaustive enumeration of weight vectors and `route weight` programs; full round-robin cycles and every random-source answer enumerated",
         level_text="Every weight vector of 1..4 (thorough: 5) targets over 13 weights through `route add`, and every `route weight` form over 2 services x 4 tag sets, checked on the real weighTargets/setWeight/rrPicker/rndPicker against an independent computation of the documented rule; ring shares, one full round-robin cycle and every answer of the random source are enumerated, not sampled.",
@@ -46,7 +46,7 @@ PROPS = {
         route_sched("c04-sched", "^TestVerifC04Sched", shards={"quick": 1, "thorough": 8}),
         unit("c04-listeners", ".", MAIN_COMMON + ["main/c19_test.go", "main/c16_test.go", "main/c18_sig_test.go", "main/c04_listener_test.go"], "^TestVerifC04Listeners", engines=["vhook"], rewrite=[{"files": ["transport/transport.go"], "opts": ["-sel", "net.Dialer=vhook.Dialer"]}]),
         unit("c04-admin", "admin/api", ["adminapi/c05_test.go", "adminapi/c02_read_test.go"], "^TestVerifC02AdminRead", sched_env={"VERIF_ADMIN_PROP": "C04"}),
-    ], layers={"quick": ["c04-add", "c04-weightcmd", "c04-sched", "c04-listeners", "c04-admin"], "thorough": ["c04-add", "c04-weightcmd", "c04-sched", "c04-listeners", "c04-admin"]}),
+    ], layers={"quick": ["c04-add", "c04-weightcmd", "c04-cursor", "c04-sched", "c04-listeners", "c04-admin"], "thorough": ["c04-add", "c04-weightcmd", "c04-cursor", "c04-sched", "c04-listeners", "c04-admin"]}),
     "C05": dict(level="model_checking", engine="xstate",
         technique="explicit-state BFS over route-command scripts with a reference interpreter; each transition rebuilds the real table with NewTable and compares",
         level_text="All reachable reference states of a 19-command alphabet (add/del/weight in every documented form, hosts in mixed case, tags, opts, weights) are explored breadth-first (quick: depth 5 with state de-duplication; thorough: until the frontier empties); every transition is executed on the real parser + table and compared field by field with an independent interpreter; every state round-trips through Parse(Table.String()).",
@@ -215,7 +215,7 @@ PROPS = {
     ], layers={"quick": ["c16-calls", "c16-history", "c16-listeners", "c16-pool"], "thorough": ["c16-calls", "c16-history", "c16-listeners", "c16-pool"]}),
 }
 
-LAYER_UNIT = {"c06-sched": "c06", "c03-select": "c03", "c03-lookuphost": "c03", "c04-add": "c04", "c04-weightcmd": "c04", "c05-commands": "c05",
+LAYER_UNIT = {"c06-sched": "c06", "c03-select": "c03", "c03-lookuphost": "c03", "c04-add": "c04", "c04-weightcmd": "c04", "c04-cursor": "c04", "c05-commands": "c05",
               "c07-request": "c07", "c07-response": "c07", "c07-wire": "c07", "c07-history": "c07", "c08-headers": "c08", "c08-websocket": "c08", "c09-tunnels": "c09", "c09-proxyline": "c09-sockets", "c09-websocket": "c09-ws",
               "c10-sni": "c10", "c12-rules": "c12-rules", "c13-inputs": "c13", "c13-sched": "c13", "c14-registrations": "c14", "c14-multi": "c14", "c15-sources": "c15-config",
               "c15-robust": "c15-config", "c15-junk": "c15-config", "c16-calls": "c16", "c16-history": "c16", "c19-config": "c19", "c19-behaviour": "c19", "c19-history": "c19", "c20-fields": "c20-logger", "c20-e2e": "c20-formatters",
